@@ -24,12 +24,10 @@ class C05(Check):
             'let, pass, requires members) + 0-2 generated templates + a fixed template library, built from let, where, '
             '|>, <|, inline Python over bound names, symbolic counts {n}, {,n}, {`n+1`}, calls with bound names as '
             'arguments; names are reused across alternatives, iterations, recursive and sibling invocations, and '
-            'shadowed at tail positions; inputs: all strings of length <= 4 over {a,b,1,2} plus 40 random ones up to '
+            'shadowed anywhere and read again after the shadowing scope; inputs: all strings of length <= 4 over {a,b,1,2} plus 40 random ones up to '
             'length 8 over {a,b,1,2,Z}. Non-trivial iff the reference trace reads a name that was bound to >= 2 '
             'different values during the same parse call; distinct by (rule text, input).')
-    assumptions = ['a name is read only where innermost enclosing binding == most recent binding in the rule invocation '
-                   '(shadow-then-read is known finding F24, excluded by construction)',
-                   'inline Python comes from a closed language the oracle can evaluate']
+    assumptions = ['inline Python comes from a closed language the oracle can evaluate']
     budget_quick = 150
     budget_thorough = 1500
 
